@@ -60,7 +60,8 @@ def _binnings(ift, h):
 
 def _cases(ift, tier):
     other = ift.RGSpace(2, distances=0.3)           # position space with pixel volume 0.3
-    gl = ift.UnstructuredDomain(2)
+    # a partner with non-uniform pixel volumes (an UnstructuredDomain has no volume: Field.weight, and with it power_analyze, refuse it)
+    gl = ift.GLSpace(2)
     for hn, h in _harmonic_spaces(ift).items():
         for bn, bb in _binnings(ift, h).items():
             yield f"{hn} [{bn}]", (h,), 0, bb
@@ -68,7 +69,7 @@ def _cases(ift, tier):
                 yield f"{hn} x RG(2,d=0.3) [{bn}]", (h, other), 0, bb
                 yield f"RG(2,d=0.3) x {hn} [{bn}]", (other, h), 1, bb
             if tier == "thorough":
-                yield f"Unstructured(2) x {hn} x RG(2,d=0.3) [{bn}]", (gl, h, other), 1, bb
+                yield f"GL(2) x {hn} x RG(2,d=0.3) [{bn}]", (gl, h, other), 1, bb
 
 
 def _axes(dt, space):
@@ -191,6 +192,15 @@ def _analysis_formula(dt, space, pin, nb, F2):
     return out
 
 
+def _runs(chk, label, fn):
+    """precondition check of the contract: an admissible input must be accepted"""
+    try:
+        return fn()
+    except Exception as e:  # noqa: BLE001
+        chk.obligation(f"{label}: the admissible input is accepted", "refuted", backend="native", detail=f"{type(e).__name__}: {e}"[:300])
+        return None
+
+
 def sec_analyze(chk):
     import nifty.cl as ift
     from nifty.cl import sugar
@@ -206,7 +216,9 @@ def sec_analyze(chk):
             nb = ps.shape[0]
             # (1) a general real field: the volume-weighted bin average of its square
             f, fs = sym_field(ift, dt, "f", real=True)
-            got = exprs(ift.power_analyze(f, spaces=space, binbounds=bb).asnumpy())
+            got = _runs(chk, f"analyze: {name}: power_analyze of a real field over the harmonic sub-space", lambda: exprs(ift.power_analyze(f, spaces=space, binbounds=bb).asnumpy()))
+            if got is None:
+                continue
             all_equal(chk, f"analyze: {name}: power_analyze == volume-weighted bin average of the squared field", got,
                       _analysis_formula(dt, space, pin, nb, [x * x for x in fs]))
             # (2) a field whose squared modulus is a distributed spectrum returns the spectrum (signs vary from mode to mode)
@@ -233,7 +245,9 @@ def sec_analyze(chk):
                 c, d = ph[i % 3]
                 arr[i] = SX(a * (c + sp.I * d))
             fld = ift.Field(dt, arr.reshape(dt.shape))
-            got = exprs(ift.power_analyze(fld, spaces=space, binbounds=bb).asnumpy())
+            got = _runs(chk, f"analyze: {name}: power_analyze of a complex field over the harmonic sub-space", lambda: exprs(ift.power_analyze(fld, spaces=space, binbounds=bb).asnumpy()))
+            if got is None:
+                continue
             all_equal(chk, f"analyze: {name}: complex field with |f|^2 == times(s): the power is exactly s", got, ss)
             # phase information: constant phase c + i d -> c^2 s + i d^2 s
             c, d = ph[0]
